@@ -10,7 +10,7 @@ FINISH = dict(level="model_checking",
                    "documents; strict must fail, default must succeed with the value of the RFC-valid equivalent, "
                    "strict+trailing accepts trailing bytes and reports the end of the value")
 MC = ["C16_cmt.cfg", "C16_quote.cfg", "C16_lit.cfg", "C16_ctl.cfg", "C01_num.cfg", "C01_struct.cfg"]
-ASF = ["C16_asfound_sq_name.cfg", "C16_asfound_leadzero.cfg"]
+ASF = ["C16_asfound_sq_name.cfg", "C16_asfound_leadzero.cfg", "C16_asfound_comment_star.cfg"]
 
 
 def diag_of(rec, ex):
